@@ -335,7 +335,8 @@ def render_block_items(items, r, trailing_semicolon=None):
         if it['k'] == 'comment':
             out += r.nl() + '/*' + it['text'] + '*/'
         elif it['k'] == 'raw':  # injected garbage (C04), always terminated
-            out += r.nl() + it['text'] + ';'
+            # (an at-rule that ends with its block needs no ';': what follows directly is the next item)
+            out += r.nl() + it['text'] + ('' if it.get('noterm') else ';')
         else:
             out += r.nl() + render_decl(it, r)
             last_item = i == n - 1  # a comment after a declaration without ';' would belong to that declaration
